@@ -45,7 +45,7 @@ def candidate_pins(spec, cand, pin_selections=True, pin_dynamic=True):
 def make_solver(b, cfg):
     kw = {"problem": b.problem}
     for k in ("debug", "max_time", "parallel", "random_values", "logics", "verbosity", "optimizer",
-              "max_iter", "optimize_priority"):
+              "max_iter", "optimize_priority", "save_intermediate_states", "save_intermediate_states_path"):
         if cfg.get(k) is not None:
             kw[k] = cfg[k]
     kw.setdefault("max_time", 30)
